@@ -343,6 +343,51 @@ def modelledSites : List (String × String) := [
   ("src/read_mapper.py:store_alignment:store_config:alignment_config_path", "replaceBuf 3 false")
 ]
 
+/-! ### the artefact a run took stays the one it took (Props/C20Stable.lean)
+
+A `Result` records path @ mtime of the artefact at the moment the run took it (cache hit or own production); the run
+re-opens that *path* for the rest of its life.  `stable` says the file at the path is still that version. -/
+
+/-- the file at the result's path is still the version (path @ mtime) the run took -/
+def Result.stable {β : Type} (w : World β) (r : Result) : Prop := w.mtime r.target = some r.tgtM
+
+instance {β : Type} (w : World β) (r : Result) : Decidable (r.stable w) := by
+  unfold Result.stable; exact inferInstance
+
+/-- every result of every process is, in this state, still the file version the process took -/
+def ResultsStableAt {β : Type} (s : Sys β) : Prop := ∀ p ∈ s.procs, ∀ r ∈ p.results, r.stable s.world
+
+instance {β : Type} (s : Sys β) : Decidable (ResultsStableAt s) := by
+  unfold ResultsStableAt; exact inferInstance
+
+/-- the path an instruction (re)writes when it is executed -/
+def Instr.produces : Instr → Option Path
+  | .produce c _ => some c.target
+  | _ => none
+
+/-- targets of the productions still ahead in an instruction list (with multiplicity; a production behind a `lookup`
+    counts although a hit would skip it: whether it is skipped depends on the interleaving) -/
+def pendingOf (l : List Instr) : List Path := l.filterMap Instr.produces
+
+/-- … of a process (a crashed process performs nothing any more) -/
+def Proc.toProduce (p : Proc) : List Path := if p.crashed then [] else pendingOf p.todo
+
+/-- … of the whole system -/
+def Sys.toProduce {β : Type} (s : Sys β) : List Path := s.procs.flatMap Proc.toProduce
+
+/-- Every path is the target of at most one pending production in the whole system, and no pending production targets a
+    path that a logged production wrote (every entry of every cache – config files, loaded dicts, pending entries – is
+    the entry of a logged production, invariant `SInv`; so this covers "the target of an entry of an initial cache") or
+    that an existing result refers to.  Decidable; the class it excludes is exactly the one of
+    `shared_target_overwrite_witness`: a run produces into a path another run may have taken from the cache. -/
+def PrivateTargets {β : Type} (s : Sys β) : Prop :=
+  s.toProduce.Nodup ∧
+  (∀ t ∈ s.toProduce, ∀ cv ∈ s.world.convs, cv.client.target ≠ t) ∧
+  (∀ t ∈ s.toProduce, ∀ p ∈ s.procs, ∀ r ∈ p.results, r.target ≠ t)
+
+instance {β : Type} (s : Sys β) : Decidable (PrivateTargets s) := by
+  unfold PrivateTargets; exact inferInstance
+
 /-! ### a concrete lawful codec (length-prefixed records) -/
 
 def encEntry (x : Key × Entry) : List Nat :=
